@@ -292,8 +292,15 @@ def sim_kwargs(req, default_ua):
         kw['query_string'] = req['query']
         if st.get('params_empty'):
             kw['params'] = {}
-    if req['server'][1] != default_port(req['scheme']) or st.get('explicit_port'):
+    # documented alternative argument forms: port "may also be passed [as a string], as long as it can be parsed as an
+    # int"; http_version '2.0' == '2' and '1' == '1.0'; body as str is encoded as UTF-8; a root_path without the
+    # leading slash gets one
+    if st.get('port_str'):
+        kw['port'] = str(req['server'][1])
+    elif req['server'][1] != default_port(req['scheme']) or st.get('explicit_port'):
         kw['port'] = req['server'][1]
+    if st.get('http_version_alias'):
+        kw['http_version'] = {'2': '2.0', '1.0': '1'}.get(req['http_version'], req['http_version'])
     if req['client'] is None:
         pass
     elif req['client'][0] == '127.0.0.1' and not st.get('explicit_remote'):
@@ -303,11 +310,17 @@ def sim_kwargs(req, default_ua):
     if req['root_path']:
         if not req['root_path'].startswith('/'):
             return None, 'root_path shape'
-        kw['root_path'] = req['root_path']
+        kw['root_path'] = req['root_path'][1:] if st.get('root_no_slash') and req['root_path'][1:2] not in ('', '/') \
+            else req['root_path']
     elif st.get('empty_root_arg'):
         kw['root_path'] = ''
     if body:
         kw['body'] = body
+        if st.get('body_str'):
+            try:
+                kw['body'] = body.decode('utf-8')
+            except UnicodeDecodeError:
+                pass
     elif st.get('empty_body_arg') and not cl:
         kw['body'] = b''
     if req['chunks']:
